@@ -348,23 +348,88 @@ func Run(r *vk.Run) {
 		}
 		return last
 	}
+	// full node fed by the DA layer alone: chain shape x DA layout (headers ahead of data by 1, 2 or all blocks, data ahead
+	// of headers likewise, one block per DA height, everything in reverse, generated placements) x DA height being scanned
+	// x crash after durable write k x (on the short chains) second crash k2 of the restarted process
+	type daJob struct {
+		p     *world.Produced
+		shape string
+		l     Layout
+		step  int
+		deep  bool
+	}
+	var daJobs []daJob
+	daShapes := []string{"x", "xx", "ex", "xe", "xxx", "xex", "exx"}
+	nRandom := 2
+	if !r.Quick() {
+		daShapes = append(daShapes, "xxxx", "xeex", "exxe", "xxexx")
+		nRandom = 6
+	}
+	for si, shape := range daShapes {
+		p, err := world.ProduceChain(ctx, buildSpec(shape, fmt.Sprintf("d%d", si)), keys)
+		if err != nil {
+			r.Inconclusive("the aggregator producing the reference chain failed (not this property's business): " + err.Error())
+			return
+		}
+		rng := rand.New(rand.NewSource(r.SeedV*1000003 + int64(si)))
+		for _, l := range layouts(p, rng, nRandom) {
+			for s := range l.Steps {
+				daJobs = append(daJobs, daJob{p, shape, l, s, len(shape) <= 2 || !r.Quick()})
+			}
+		}
+	}
+	runDA := func(j daJob) {
+		base := DACase{Shape: j.shape, Layout: j.l.Name, Steps: j.l.String(), Step: j.step}
+		for k := 0; k < 200; k++ {
+			c := base
+			c.K = []int{k}
+			crashed := runDACase(r, j.p, j.l, c)
+			r.Eval(c.key(), crashed != nil && crashed[0], c)
+			if crashed == nil || !crashed[0] {
+				break
+			}
+			if !j.deep {
+				continue
+			}
+			for k2 := 0; k2 < 400; k2++ {
+				c2 := base
+				c2.K = []int{k, k2}
+				cr := runDACase(r, j.p, j.l, c2)
+				r.Eval(c2.key(), cr != nil && len(cr) > 1 && cr[1], c2)
+				if cr == nil || !cr[1] {
+					break
+				}
+			}
+		}
+	}
 	var wg sync.WaitGroup
-	ch := make(chan tuple)
+	ch := make(chan func())
 	for w := 0; w < 14; w++ {
 		wg.Add(1)
 		go func() {
 			defer wg.Done()
-			for t := range ch {
-				c := Case{Shape: t.shape, Mode: t.mode, Block: t.block, Redeliv: t.red}
-				r.Guard(c, func() { enum(t.p, c, 0) })
+			for job := range ch {
+				job()
 			}
 		}()
 	}
 	for _, t := range tuples {
-		ch <- t
+		t := t
+		ch <- func() {
+			c := Case{Shape: t.shape, Mode: t.mode, Block: t.block, Redeliv: t.red}
+			r.Guard(c, func() { enum(t.p, c, 0) })
+		}
+	}
+	for _, j := range daJobs {
+		j := j
+		ch <- func() {
+			r.Guard(DACase{Shape: j.shape, Layout: j.l.Name, Steps: j.l.String(), Step: j.step}, func() { runDA(j) })
+		}
 	}
 	close(ch)
 	wg.Wait()
+	r.Set("enumerated_da_layout_steps", len(daJobs))
+	r.Require("resync-from-da-alone", 100)
 	r.SetExhaustive(true)
 	r.Set("enumerated_tuples", len(tuples))
 	r.Require("restart-ok", 100)
